@@ -33,15 +33,15 @@ func genEntry(r *vh.Rand) string {
 		ty = int32(r.Intn(100000))
 	}
 	var cmd []byte
-	switch r.Intn(6) {
-	case 0:
-	case 1:
+	switch k := r.Intn(36); {
+	case k < 6:
+	case k < 12:
 		cmd = r.Bytes(1)
-	case 2:
+	case k < 18:
 		cmd = r.Bytes(r.Intn(20))
-	case 3:
+	case k < 24:
 		cmd = r.Bytes(126 + r.Intn(4))
-	case 4:
+	case k < 25:
 		cmd = r.Bytes(16382 + r.Intn(4))
 	default:
 		cmd = r.Bytes(r.Intn(400))
@@ -148,7 +148,7 @@ func main() {
 	a := vh.ParseArgs()
 	switch a.Mode {
 	case "gen":
-		n := 4000
+		n := 3000
 		if a.Tier == "thorough" {
 			n = 200000
 		}
